@@ -53,6 +53,15 @@ def evaluate(case, res):
         res.bad('list-star-is-not-the-record', '%d listed, %d recorded' % (len(listed), len(s.ctl.all_messages)))
     if len(listed) != nlines:
         res.bad('list-star-incomplete', '%d listed, %d arrived' % (len(listed), nlines))
+    # ... and connection by connection: selecting one must make exactly its own record queryable (whatever the messages are on)
+    for c in s.cm.connections():
+        s.ctl.process_command('connection ' + c.name())
+        n2 = len(s.out.buffer)
+        s.ctl.process_command('list *')
+        listed = [l for l in s.out.buffer[n2:].split('\n')[:-1] if session.MSG_LINE.match(l)]
+        if listed != session.render_shown(per_conn.get(c.name(), [])):
+            res.bad('list-star-of-selected-connection', 'connection %s: %d listed, %d of its messages arrived' % (c.name(), len(listed), len(per_conn.get(c.name(), []))))
+    s.ctl.process_command('connection all')
     return w
 
 
@@ -69,6 +78,8 @@ class Sessions(Stage):
         if d.chance(0.4):
             g = rm.Gen(d, rm.vocab(specs), 1)
             initial = scripts.gen_matcher_text(d, g)
+            if d.chance(0.3):
+                initial = d.choice(['!', '*.*', 'wl_seat ! *', '*', '* . *', 'wl_display, *'])      # start-up filters that collapse to a constant
         return dict(dialect=dialect, specs=specs, initial_filter=initial, items=scripts.gen_script(d, specs, dialect))
 
     def execute(self, case):
